@@ -680,7 +680,7 @@ const VAR_NAMES: &[&str] = &["a", "b", "i", "j", "k", "m", "t", "v", "w", "n", "
 // header names may be spelled like keywords (the header has its own scanner), differ only in letter case, or extend one another
 const IN_NAMES: &[&str] = &["A", "B", "D", "CLK", "EN", "S0", "IN_3", "ALU-~RESET", "é", "loop", "X", "a", "AB", "end"];
 // `n` is also the implicit counter of `repeat`
-const OUT_NAMES: &[&str] = &["Q", "Y", "R", "DONE", "OUT", "q2", "Flag", "Σ", "n", "Z", "bits", "let", "C", "Q_out_q", "random"];
+const OUT_NAMES: &[&str] = &["Q", "Y", "R", "DONE", "OUT", "q2", "Flag", "Σ", "n", "Z", "bits", "let", "C", "Q_out_q", "random", "q", "y", "done"];
 const BI_NAMES: &[&str] = &["BUS", "IO", "P", "IO2", "BU"];
 
 fn is_while_counter(v: &str) -> bool {
@@ -744,6 +744,12 @@ impl<'a> Gen<'a> {
                 return GExpr::Var(self.r.pick(&vars).clone());
             }
             return GExpr::Num(self.small_or_wide());
+        }
+        if depth >= 1 && self.r.chance(1, 30) {
+            // the same expression on both sides of an operator: `e - e` is 0 only if `e` draws no random numbers
+            let e = self.expr(depth - 1, allow_vars);
+            let o = *self.r.pick(&["sub", "xor", "eq", "div", "and", "add", "ne", "rem"]);
+            return GExpr::Bin(o, Box::new(e.clone()), Box::new(e));
         }
         let roll = self.r.below(100) as u32;
         if roll < self.p.p_random {
@@ -1260,7 +1266,6 @@ pub fn gen_case(r: &mut Prng, p: &Profile) -> Case {
         }
     }
     r.shuffle(&mut layout);
-
     let fault = if (r.below(100) as u32) < p.p_fault {
         let at = r.below(12);
         Some(if r.chance(1, 2) {
@@ -1274,6 +1279,20 @@ pub fn gen_case(r: &mut Prng, p: &Profile) -> Case {
     if fault.is_some() {
         tags.push("fault");
     }
+    // (never together with a fault plan: the deviation oracles speak about the signals the test knows)
+    if fault.is_none() && !layout.is_empty() && r.chance(1, 30) {
+        // a driver that reports a signal of the right name but not THAT signal (another width, or a plain output for a
+        // bidirectional pin): to the test it is an unknown signal, and the real one is never supplied
+        let i = r.below(layout.len());
+        if layout[i].dir == Dir::Bidir && r.chance(1, 2) {
+            layout[i].dir = Dir::Out;
+            layout[i].default = None;
+        } else {
+            layout[i].bits = layout[i].bits % 64 + 1;
+        }
+        tags.push("twin-signal");
+    }
+
 
     let style_seed = r.next_u64();
     let style = Style::random(&mut Prng::new(style_seed ^ 0xABCD));
